@@ -189,6 +189,14 @@ fn base_case<T: Sc>(rng: &mut Rng, thorough: bool, idx: usize, flavour: Flavour,
         1
     } else if c.origin == "bigS" {
         c.y.ncols() // size-threshold sub-stream: keep the many right-hand sides
+    } else if idx % 8 == 7 && c.recipe.n() <= 40 {
+        let _ = rng.range(1, 4);
+        c.recipe.n() // square observation matrix
+    } else if flavour.is_par() {
+        // parallel problems: the number of right-hand sides is cycled through values on both sides of
+        // small multiples of plausible pool sizes (work split per thread, with and without remainder)
+        let _ = rng.range(1, 4);
+        [2usize, 3, 5, 7, 9, 11, 4, 1][(idx / 3) % 8]
     } else {
         rng.range(1, if thorough { 6 } else { 4 })
     };
@@ -357,8 +365,16 @@ pub fn stream_mrhs(out: &mut Out, seed: u64, thorough: bool) {
     let mut rng = Rng::new(seed ^ 0xC07);
     let n = if thorough { 3000 } else { 200 };
     for i in 0..n {
+        // (parallel cases run inside pools of 1, 2, 3 or 5 workers instead of the global one)
+        let par = i % 3 == 2;
         if i % 4 == 3 {
-            one_mrhs::<f32>(out, &mut rng, thorough, i);
+            if par {
+                crate::common::in_alt_pool(i / 3, || one_mrhs::<f32>(out, &mut rng, thorough, i));
+            } else {
+                one_mrhs::<f32>(out, &mut rng, thorough, i);
+            }
+        } else if par {
+            crate::common::in_alt_pool(i / 3, || one_mrhs::<f64>(out, &mut rng, thorough, i));
         } else {
             one_mrhs::<f64>(out, &mut rng, thorough, i);
         }
